@@ -1,14 +1,14 @@
 #!/venv/bin/python
-"""Runs tools/seedtest.py on every finished seeded change under /tmp/seed_C*/change* that has no result yet, keeps it under
+"""Runs tools/seedtest.py on every finished seeded change under /tmp/seed{,2,3}_C*/change* that has no result yet, keeps it under
 /verif/seeded/<Cxx>_<n>/ and prints one line per change."""
 import glob, json, os, subprocess, sys
 from concurrent.futures import ThreadPoolExecutor
 todo = []
-for d in sorted(glob.glob('/tmp/seed_C*/change*') + glob.glob('/tmp/seed2_C*/change*')):
+for d in sorted(glob.glob('/tmp/seed_C*/change*') + glob.glob('/tmp/seed2_C*/change*') + glob.glob('/tmp/seed3_C*/change*')):
     if os.path.exists(d + '/meta.json') and os.path.exists(d + '/patch.diff') and os.path.exists(d + '/demo.py') and not os.path.exists(d + '/result.json'):
         prop = d.split('/')[2].split('_')[1]
-        r2 = d.split('/')[2].startswith('seed2_')
-        todo.append((prop, d, f'{prop}_{int(d[-1]) + (2 if r2 else 0)}'))
+        rnd = {'seed': 0, 'seed2': 2, 'seed3': 4}[d.split('/')[2].split('_')[0]]
+        todo.append((prop, d, f'{prop}_{int(d[-1]) + rnd}'))
 def run(t):
     prop, d, name = t
     subprocess.run(['/venv/bin/python', '/verif/tools/seedtest.py', prop, d, '--keep-as', name], capture_output=True, text=True, timeout=5400)
